@@ -86,7 +86,7 @@ fn unchanged(m: &Members, id: ActorId, s: &Spec) {
 
 // ---- member up ---------------------------------------------------------------------------------
 #[kani::proof]
-#[kani::unwind(6)]
+#[kani::unwind(8)]
 fn c18_member_up_step() {
     let (p, q) = (any_spec(), any_spec());
     let mut m = build(&p, &q);
@@ -104,6 +104,16 @@ fn c18_member_up_step() {
         kani::assume(addr == p.addr && cluster == p.cluster);
     }
     let actor = Actor::new(id, addr, t, cluster);
+    // round-trip observations already recorded for the address the identity arrives with
+    let has_sample: bool = kani::any();
+    let sample: u64 = kani::any();
+    kani::assume(sample <= 400);
+    if has_sample {
+        let mut rtt = Rtt::default();
+        rtt.buf.push_front(sample);
+        m.rtts.insert(addr, rtt);
+    }
+    let ring_of_addr = if has_sample { bucket(sample) } else { None };
     let res = m.add_member(&actor);
 
     let known = who == 0 && p.present;
@@ -115,9 +125,15 @@ fn c18_member_up_step() {
             if !known {
                 assert!(res == MemberAddedResult::NewMember);
                 assert!(mk == k && ma == addr && mc == cluster, "C18: new member not listed with its identity");
+                assert!(mr == ring_of_addr, "C18: a new member's ring is not what the observations for its address say");
             } else if k > p.k {
                 assert!(res == MemberAddedResult::Updated);
                 assert!(mk == k && ma == addr && mc == cluster, "C18: newer identity did not replace the older one");
+                if addr != p.addr {
+                    assert!(mr == ring_of_addr, "C18: a member renewed at another address keeps a ring that was derived from its former address");
+                } else {
+                    assert!(mr == p.ring || (has_sample && mr == ring_of_addr), "C18: a renewal at the same address changed the ring without an observation");
+                }
             } else {
                 // older or same identity: nothing changes
                 assert!(mk == p.k && ma == p.addr && mc == p.cluster && mr == p.ring, "C18: an older identity overwrote a newer one");
@@ -131,6 +147,7 @@ fn c18_member_up_step() {
     }
     check_view_invariant(&m);
     kani::cover!(known && k > p.k && addr != p.addr, "renewed identity with a new address");
+    kani::cover!(known && k > p.k && addr != p.addr && p.ring == Some(0) && !has_sample, "ring-0 member renewed at an unmeasured address");
     kani::cover!(known && k < p.k, "stale up");
     kani::cover!(!known, "new member");
     core::mem::forget(m);
